@@ -70,6 +70,17 @@ def build_facts():
     if rc != 0: raise BuildError('genfacts failed', out2)
     stamp_set('facts', dig)
 
+def facts():
+    """the regenerated numeric facts as a dict"""
+    d = {}
+    try:
+        for l in open(os.path.join(BUILD, 'facts.txt')):
+            t = l.split()
+            if len(t) == 3 and t[0] in ('N', 'Z'): d[t[1]] = int(t[2])
+    except OSError:
+        pass
+    return d
+
 def build_harness():
     dig = file_hash(repo_sources() + harness_sources())
     exe = os.path.join(BUILD, 'vharness')
@@ -84,6 +95,17 @@ def build_harness():
     rc, out = sh(cmd)
     if rc != 0: raise BuildError('verification harness does not compile against the working tree', out)
     stamp_set('harness', dig)
+
+def build_linuxport():
+    """os/linux/lltd_port.c as is + harness/linuxport_main.c"""
+    srcs = [os.path.join(REPO, 'os/linux/lltd_port.c'), os.path.join(REPO, 'os/linux/daemon/linux-main.h'), os.path.join(VERIF, 'harness/linuxport_main.c'),
+            os.path.join(REPO, 'lltdResponder/lltdPort.h'), os.path.join(REPO, 'lltdResponder/lltdProtocol.h')]
+    dig = file_hash(srcs); exe = os.path.join(BUILD, 'linuxport')
+    if stamp_ok('linuxport', dig) and os.path.exists(exe): return exe
+    rc, out = sh(['gcc'] + HARNESS_CFLAGS + ['-I' + os.path.join(REPO, 'lltdResponder'), '-I' + os.path.join(REPO, 'os/linux'), '-o', exe,
+                  os.path.join(VERIF, 'harness/linuxport_main.c'), os.path.join(REPO, 'os/linux/lltd_port.c')])
+    if rc != 0: raise BuildError('the Linux platform layer does not compile into the getter harness', out)
+    stamp_set('linuxport', dig); return exe
 
 def coq_makefile():
     mk = os.path.join(COQ, 'Makefile.coq')
